@@ -223,7 +223,7 @@ def split_log(pools, tasks, out):
     for ev in out.split(";")[1:]:
         f = ev.split(",")
         kind = f[0]
-        if kind in ("S", "SR", "HS", "HE", "OE", "G", "GG", "HANG"):
+        if kind in ("S", "SR", "HS", "HE", "OE", "G", "GG", "HANG", "G1", "ER", "HANG1"):
             p, lk = local[int(f[1])]
             if kind == "HS":
                 bids[p].append(int(f[6]))
